@@ -251,12 +251,18 @@ class Driver:
                 cas.append({"ck": self.ckid("c/" + sha), "hashok": ok, "nver": nver})
         mem = []
         reader = self.open_backend(read_only=True, with_cache=False)
+        current = {self.mid_of(m_): k for k, m_ in self.current.items()}
         for mid, mem_obj in self.mementos.items():
             ck = mem_obj.content_key
             rec = {"mid": mid, "ck": 0, "keyok": True, "dig": 0}
             if ck is not None:
                 rec["ck"] = self.ckid("%s#%s" % (ck.key, ck.version))
             try:
+                if mid in current:
+                    # the memento as another process finds it: decoded from the store, not the object handed to memoize
+                    decoded = reader.get_mementos(self.keyrefs([current[mid]]))[0]
+                    if decoded is not None and self.mid_of(decoded) == mid:
+                        mem_obj = decoded
                 val = reader.read_result(mem_obj)
                 rec["dig"] = self.vid(digest(val))
                 if ck is not None and ck.key.startswith("c/"):
